@@ -12,7 +12,6 @@ REQUIRED = ["Interpolation.__init__", "Interpolation.set", "Interpolation._order
             "planetary_conjunction", "planet_star_conjunction", "planet_stars_in_line",
             "minimum_angular_separation"]
 THEOREMS = ["C12_through_points", "C12_newton_form", "C12_polynomial", "C12_derivative", "C12_refused",
-            "C12_newton_diff", "C12_constructor_3", "C12_constructor_4", "C12_duplicates",
             "C12_newton_diff_any", "C12_compute_table_any", "C12_call_any", "C12_interpolates_any",
             "C12_derivative_any", "C12_derivative_two", "C12_refused_any",
             "C12_order_points_any", "C12_order_independent_any", "C12_stored_pipeline_any",
@@ -23,44 +22,43 @@ PROOF_TIMEOUT = {"quick": 1500, "thorough": 3000}
 EXHAUSTIVE = False
 MANIFEST = {
     "category": "proof",
-    "text": ("T5/T1: root(): the while loop of the regenerated model (extracted from the generated text) keeps the bracket "
-             "invariant - proved by induction on the loop fuel in the real-number instance for ANY table object whose "
-             "__call__/derivative return a float or raise ValueError (assumption shown satisfiable on a symbolic 3-point table): "
-             "for max_iter < 5000 the outcome is a float inside the ordered, clamped [xl, xh] with |interpolant| <= tol, or "
-             "ValueError - nothing else (the model's OutOfFuel is impossible); for every stored table of 3..64 points this holds with "
-             "no assumption (callees proved total).  PARTIAL CORRECTNESS: that a root is returned for "
-             "every sign change is not proved.  ANY n (1..64, symbolic stored lists, by induction over the generated loops + "
-             "Spec/Newton.v): _newton_diff = divided differences, _compute_table stores them, __call__ returns y_j at every node "
-             "and between the nodes the Horner value of the Newton form, which passes through all points and reproduces every "
-             "polynomial of degree < n exactly (uniqueness of the interpolant); derivative() (n >= 3) returns the derivative of that Newton "
-             "form; ValueError outside the table; the constructor Interpolation(px, py) (two lists, ANY n in 2..64, any order) builds exactly that object independently of the order of the points, duplicates give ValueError.  Two tuples, interleaved scalars and the copy constructor: any n as well (symbolic 3- and 4-point versions kept; property: "
-             "2-9): every order of the points and every input form give the object with sorted abscissae and the divided "
-             "differences, duplicates give ValueError (n = 3, two-list form); __call__/derivative of a symbolic 3-point table "
-             "(n = 3 ONLY) pass through the points, equal the Lagrange parabola and its derivative, ValueError outside; binary64 "
-             "kernel evaluation of root/minmax on an explicit grid (24 tables x all limit pairs, 756 roots found) against an "
-             "independent Lagrange reference; sizes 2-9 by bit-exact correspondence incl. the four Coordinates helpers and a "
-             "Fraction-exact search oracle incl. copy/set call sequences."),
-    "technique": "fuel induction over the generated while loop + call-by-value symbolic evaluation (pyrun2) + field/lra/Coquelicot in "
-                 "the ideal instance; vm_compute reflection over a finite grid in binary64; generated model + bit-exact differential "
-                 "correspondence; exact rational reference in the search",
+    "text": ("T5/T1, real-number instance, by induction over the generated loops (symbolic lists of ANY length n, the model's "
+             "recursion fuel bounds n by 64) with the mathematics in Spec/Newton.v: the constructor Interpolation(px, py) - two "
+             "lists, two tuples, interleaved scalars (n in 2..64, points in any order) and the copy constructor - builds the object "
+             "with strictly increasing abscissae, ordinates carried along and the divided differences as coefficient table, "
+             "independently of the order of the points; duplicates give ValueError; __call__ returns y_j at every node and between "
+             "the nodes the Horner value of the Newton form, which passes through all points and reproduces every polynomial of "
+             "degree < n EXACTLY (uniqueness of the interpolant), derivative() (n >= 3) returns its derivative; ValueError outside "
+             "the table; end to end: polynomial data in any order are reproduced (C12_polynomial_any).  Exact real arithmetic: the "
+             "relative 1e-9 of the binary64 code is covered by correspondence and search only.  root(): the while loop of the model "
+             "keeps the bracket invariant (induction on the loop fuel); for every stored table of 3..64 points and max_iter < 5000 the "
+             "outcome is a float inside the ordered, clamped [xl, xh] with |interpolant| <= tol, or ValueError - nothing else (the "
+             "model's OutOfFuel is impossible; callees proved total).  PARTIAL CORRECTNESS: that a root is returned for every sign "
+             "change is not proved.  Symbolic 3-point instances (Lagrange parabola) kept; binary64 kernel evaluation of root/minmax on "
+             "an explicit grid (24 tables x all limit pairs, 756 roots found) against an independent Lagrange reference; "
+             "bit-exact correspondence incl. the four Coordinates helpers; Fraction-exact search oracle for n = 2..9 incl. the "
+             "ordinates-only form, mixed forms and copy/set call sequences."),
+    "technique": "induction over the generated loops (generic loop-shape theorems matched against the generated text by unification) + "
+                 "call-by-value symbolic evaluation (pyrunv) + field/lra/Coquelicot in the ideal instance; pure real analysis "
+                 "(Neville recursion, polynomial uniqueness) in Spec/Newton.v; vm_compute reflection over a finite grid in binary64; "
+                 "generated model + bit-exact differential correspondence; exact rational reference in the search",
     "design_ref": "8/C12",
 }
-EXPLANATION = ("root(): bracket invariant of the generated loop proved by induction on its fuel for an arbitrary table (ideal reals): "
+EXPLANATION = ("Every generated loop of Interpolation (set, _order_points, _compute_table/_newton_diff, __call__, derivative) is "
+               "handled by induction for symbolic tables of any length (<= 64): the constructor sorts, stores the divided differences, "
+               "__call__ is the Newton form (passes through the points, reproduces polynomials of degree < n exactly), derivative() its "
+               "derivative, ValueError outside the table and on duplicates; root(): bracket invariant by induction on the loop fuel, "
                "float in the clamped interval with |P| <= tol or ValueError, never OutOfFuel for max_iter < 5000 (partial correctness: "
-               "that a root is found is only searched); constructor/_order_points/_compute_table/_newton_diff evaluated symbolically "
-               "on 3- and 4-point tables (all point orders, all input forms, duplicates); for ANY n (1..64) _newton_diff/_compute_table/"
-               "__call__ on the stored lists compute the divided differences and the Newton form, which interpolates and reproduces "
-               "polynomials of degree < n, derivative() returns its derivative, ValueError outside, and the two-list constructor (any order, duplicates refused) builds that object (loop induction + Spec/Newton.v); a symbolic 3-point "
-               "table equal the Lagrange parabola and its derivative; root/minmax evaluated by the Coq kernel on an explicit binary64 "
-               "grid; tables of other sizes (the property says 2-9), convergence and the Coordinates helpers are covered by bit-exact "
+               "that a root is found is only searched); root/minmax evaluated by the Coq kernel on an explicit binary64 grid; rounding "
+               "(the 1e-9), the ordinates-only and mixed input forms, convergence and the Coordinates helpers are covered by bit-exact "
                "correspondence and the exact-rational search only.")
 CLAUSES = {
     "passes through every tabulated point": "proved [ideal, ANY n in 1..64 on the stored object (symbolic lists, abscissae pairwise >= tol apart): __call__ returns y_j at every x_j (C12_call_any; this is the |x - xi| < tol shortcut) AND the Newton polynomial it evaluates between the nodes passes through every point (C12_interpolates_any, Spec/Newton.v: Neville recursion for the Newton form, induction on n)]; n = 3 symbolic version C12_through_points; n = 2..9 searched (exact equality) + bit-exact correspondence",
     "reproduces polynomials of degree < n (relative 1e-9)": "proved [ideal, ANY n in 2..64, END TO END: C12_polynomial_any - points in any order, ordinates p(x_j) with deg p < n => Interpolation(px, py)(x) = p(x) exactly between the nodes and derivative(x) = p'(x) (n >= 3); pieces: _newton_diff = divided differences (C12_newton_diff_any), _compute_table stores them (C12_compute_table_any), __call__ between the nodes = Horner evaluation = Newton form NF (C12_call_any), and NF reproduces every polynomial of degree < n exactly at every x (C12_interpolates_any: a degree < n polynomial with n distinct zeros is 0)]; limits: exact real arithmetic (says nothing about the 1e-9 in binary64), x at least tol away from every node (closer than tol the node ordinate is returned), the model's recursion fuel bounds n by 64; all float input forms (lists, tuples, interleaved scalars, copy) any n; n = 2..9 by correspondence + search against exact Fraction Lagrange",
     "derivative of that polynomial": "proved [ideal, ANY n in 3..64 on the stored object: the three nested generated loops of derivative() return the derivative (Coquelicot is_derive) of the Newton form through all n points, inside the table: C12_derivative_any; n = 2: slope of the chord, C12_derivative_two; symbolic n = 3 version C12_derivative]; exact real arithmetic; n = 2..9 searched",
-    "independent of the order of the points and of the input form": "proved [ideal, ANY n in 2..64, two-list form: Interpolation(px, py) for symbolic lists in any order is the object with strictly increasing abscissae, ordinates carried along, divided-difference table (C12_constructor_any: every generated loop of set(), _order_points, _compute_table), and two orders of the same points give the IDENTICAL object (C12_constructor_order_independent_any; _order_points alone for any n >= 1: C12_order_points_any, C12_order_independent_any)]; two tuples and interleaved scalars give the same object as two lists for any n in 2..64 and the copy constructor copies the fields of any table (C12_constructor_forms_any, C12_copy_any; symbolic n = 3, 4 versions C12_constructor_3/_4); NOT proved: the ordinates-only form Interpolation([y..]), mixed list/tuple arguments, the dropped dangling argument and Angle/int entries (searched); n = 2..9 all forms searched; call sequences copy/set searched (key copy-shares-state)",
+    "independent of the order of the points and of the input form": "proved [ideal, ANY n in 2..64, two-list form: Interpolation(px, py) for symbolic lists in any order is the object with strictly increasing abscissae, ordinates carried along, divided-difference table (C12_constructor_any: every generated loop of set(), _order_points, _compute_table), and two orders of the same points give the IDENTICAL object (C12_constructor_order_independent_any; _order_points alone for any n >= 1: C12_order_points_any, C12_order_independent_any)]; two tuples and interleaved scalars give the same object as two lists for any n in 2..64 and the copy constructor copies the fields of any table (C12_constructor_forms_any, C12_copy_any); NOT proved: the ordinates-only form Interpolation([y..]), mixed list/tuple arguments, the dropped dangling argument and Angle/int entries (searched); n = 2..9 all forms searched; call sequences copy/set searched (key copy-shares-state)",
     "abscissae outside the table refused with ValueError": "proved [ideal, ANY n: __call__ beyond the tolerance of every node and outside [x_0, x_(n-1)] gives ValueError (C12_refused_any, n >= 1), derivative immediately outside (C12_derivative_any, n >= 3); within tol of an end node __call__ returns that node's ordinate]; n = 3 symbolic version C12_refused; searched n = 2..9",
-    "duplicated abscissae refused with ValueError": "proved [ideal, ANY n >= 2, two-list form: any pair of abscissae closer than tol gives ValueError (C12_duplicates_any: nested duplicate-test loops, first flagged pair in scan order)]; n = 3 symbolic version C12_duplicates; other input forms searched (exact and 5e-11-apart duplicates) + correspondence",
+    "duplicated abscissae refused with ValueError": "proved [ideal, ANY n >= 2, two-list form: any pair of abscissae closer than tol gives ValueError (C12_duplicates_any: nested duplicate-test loops, first flagged pair in scan order)]; other input forms searched (exact and 5e-11-apart duplicates) + correspondence",
     "root(): returned abscissa inside [xl, xh] (ordered, clamped) with |interpolant| <= tol": "proved [ideal, ANY table, max_iter in 0..4999; partial correctness: termination with a root unproved - the outcome is such a float or ValueError, nothing else (OutOfFuel/TypeError/Unsupported excluded): C12_root_step (loop, fuel induction), C12_root_sound (entry paths in-table incl. xl = 0, reversed, reversed+outside, clamped-low, default; 'only xh above the table' not a separate theorem); callee assumption (__call__/derivative return float or ValueError) discharged for EVERY stored table of n = 3..64 points (C12_root_any: no assumption left; __call__/derivative proved total by loop induction) and for the symbolic 3-point table (C12_root_witness)]; proved [B64, explicit grid of 24 tables x all unequal limit pairs: C12_grid_b64, 756 roots found: C12_grid_found]",
     "root(): a value IS returned whenever the interpolant changes sign (convergence within max_iter)": "unproved (searched): not provable in general; holds on the B64 grid (C12_grid_b64: ValueError only without a clear sign change) and in the search on tables with |y| <= 1000",
     "minmax(): abscissa inside the interval where the derivative vanishes": "proved [B64, grid only: C12_grid_b64 with the independent Lagrange derivative]; no ideal-instance theorem; searched",
@@ -70,8 +68,8 @@ CLAUSES = {
 
 
 def proof_files(tier):
-    return (["C12_defs.v", "C12_tac.v", "C12_nd.v", "C12_init3a.v", "C12_init3b.v", "C12_init3c.v", "C12_dup3.v",
-             "C12_init4a.v", "C12_init4b.v", "C12_init4c.v", "C12_ctor3.v", "C12_ctor4.v", "C12_ideal.v", "C12_root.v", "C12_witness.v", "C12_gen.v", "C12_gend.v", "C12_rootany.v", "C12_order.v", "C12_set.v", "C12_poly.v"]
+    return (["C12_defs.v", "C12_tac.v", "C12_ideal.v", "C12_root.v", "C12_witness.v",
+             "C12_gen.v", "C12_gend.v", "C12_rootany.v", "C12_order.v", "C12_set.v", "C12_poly.v"]
             + ["C12_grid_%d.v" % k for k in range(NGRID)] + ["C12_main.v", "C12.v"])
 
 NGRID = 8
